@@ -9,7 +9,7 @@ CONSTANTS
   Grows <- None
   Pres <- None
   DelKs <- Del123
-  NextSet <- NextAll
+  NextSet <- NextFew
   Shifts <- Sh12
   DMaxLen = 0
   DSlacks <- None
